@@ -82,6 +82,9 @@ def common_spec(rng, tier, controls=True, limits=False):
         o['required_pressure'] = o['minimum_pressure'] + rng.choice([10.0, 15.0, 25.0])
         o['pressure_exponent'] = 0.5
     o['extra_hydraulic'] = {'accuracy': 1e-6, 'trials': 200}
+    if isinstance(o['report_timestep'], int) and o['report_timestep'] < o['hydraulic_timestep']:
+        # both engines shorten the hydraulic step to the report step; EPANET then also caps the rule step at it, WNTR does not
+        o['rule_timestep'] = min(o['rule_timestep'], o['report_timestep'])
     if controls and rng.random() < 0.7:
         ctrlgen.add_random_controls(spec, rng, n=(1, 4), kinds=('time', 'time', 'clock', 'tank', 'tank', 'tank', 'pressure', 'rule_time', 'rule_tank', 'rule_time', 'setting', 'setting', 'rule_setting', 'rule_setting'), offgrid=0.3)
     if controls and spec['valves'] and rng.random() < 0.35:
@@ -457,6 +460,17 @@ def run_engines(c, rng):
                 for p_ in spec['pipes']}
     open_valve_loss = {v_['name']: (ref.minor_k(v_['minor_loss'], v_['diameter']), v_) for v_ in spec['valves']}
     skip_steps = set(k for idx in mismatch.values() for k in idx)
+    # EPANET also evaluates rules at the end of every hydraulic step, WNTR only on the rule grid: when the rule step does not divide
+    # the hydraulic step a rule's setting action can take effect one report step apart in the two engines.  A valve setting that
+    # differs at ONE report step (equal before and after) is such a near tie; a longer difference is left to the value comparison.
+    for v_ in spec['valves']:
+        sw_, se_ = rw.link['setting'][v_['name']].values, re_.link['setting'][v_['name']].values
+        act_ = [int(re_.link['status'][v_['name']].values[k]) == 2 and int(rw.link['status'][v_['name']].values[k]) == 2 for k in range(len(times))]
+        dif_ = [act_[k] and abs(float(sw_[k]) - float(se_[k])) > 1e-4 * max(abs(float(sw_[k])), abs(float(se_[k])), 1e-9) for k in range(len(times))]
+        for k in range(len(times)):
+            if dif_[k] and not (k > 0 and dif_[k - 1]) and not (k + 1 < len(times) and dif_[k + 1]):
+                skip_steps.add(k)
+                c.count('setting_near_tie_steps')
     if bistable:
         skip_steps.add(min(bistable))
     # after a near tie the tank levels of the two engines differ by the step's worth: compare only up to the first one
@@ -687,9 +701,11 @@ def rig_spec(rng):
     spec = c02.valve_rig(rng)
     o = spec['options']
     o['extra_hydraulic'] = {'accuracy': 1e-06, 'trials': 200}
+    if isinstance(o['report_timestep'], int) and o['report_timestep'] < o['hydraulic_timestep']:
+        o['rule_timestep'] = min(o['rule_timestep'], o['report_timestep'])      # see common_spec
     for t in spec['tanks']:
         t['diameter'] = 30.0
-    ctrlgen.add_random_controls(spec, rng, n=(1, 2), kinds=('rule_setting', 'rule_setting', 'setting'), offgrid=0.3)
+    ctrlgen.add_random_controls(spec, rng, n=(1, 1), kinds=('rule_setting', 'rule_setting', 'setting'), offgrid=0.3)     # one source of setting changes per valve: equal-priority conflicts are undefined
     return spec
 
 
